@@ -166,7 +166,7 @@ CHECKS = [
         "level x text pairs, are logged through get_logger/add_zst_log_handler/remove_zst_log_handler and read back as .zst, .gz, plain, stdin pipe "
         "and stdin file, with and without the '<prio>' prefix: text, level, tags, timestamp, len, records(p, k, reverse) for all 9 thresholds x k in "
         "-(n+1)..n+1 x both directions, and hr {forward, reverse, --head, --tail} x n in {0,1,len-1,len,len+1,100} x all thresholds must equal the "
-        "reference slices; file variants built from the written lines: every mixed prefix mask, final newline stripped; hr with two / three FILE arguments in all modes (oracle: concatenated single-file outputs); zones with daylight saving (both hemispheres, instants around both switches, child interpreters); bursts of 10 000 - 50 000 records with a stalled writer; all reader operation sequences up to depth 3 / 4 on logs of 0..N+1 records are explored breadth-first with state "
+        "reference slices; file variants built from the written lines: every mixed prefix mask, final newline stripped; hr with two / three FILE arguments in all modes (oracle: concatenated single-file outputs); zones with daylight saving (both hemispheres, instants around both switches, child interpreters); bursts of 10 000 - 50 000 records with a stalled writer; derived .zst variants consist of two zstd frames back to back; all reader operation sequences up to depth 3 / 4 on logs of 0..N+1 records are explored breadth-first with state "
         "deduplication (1.2 M evaluations quick, 10 M thorough).",
         "note": "Trusted: python logging/queue, zstandard/gzip, str(PenlogRecord) as rendering of one record, the reference model. Admitted sets: trace in "
         "stacktrace field or appended to text; head/tail count before or after the filter; errors for positive offsets >= len and out-of-range seeks. "
@@ -242,7 +242,7 @@ CHECKS = [
         "parameter map over the DoIP / HSFZ / ISO-TP / raw-CAN config models (each field absent or a boundary value spelled in decimal, hex, octal, binary, "
         "upper/lower case) x schemes: TargetURI.from_parts -> str -> TargetURI preserves scheme, host, port, parameters and location and Config(**qs_flat) "
         "yields the written numbers; split_host_port/join_host_port are lossless; the HSFZ / ISO-TP / DoIP discoverers' URI construction is exercised with "
-        "boundary arguments incl. sub-second timeouts. The discovery scanners themselves (ISO-TP incl. all 256 extended addresses, HSFZ, DoIP) run against fakes and every URI they emit must parse back to the endpoint that answered and connect with it; what reaches the socket (setsockopt / bind structs, connect arguments) is decoded and compared with the URI's numbers for every transport; prefix-less hex is rejected, digit strings are decimal. Parsing is history-independent: 22 literals through 27 integer entry points in every ordered pair (A, B, A again) within one process. Range grammar: all expressions of <= 4 tokens for unravel and <= 3 outer groups for unravel_2d over "
+        "boundary arguments incl. sub-second timeouts. The discovery scanners themselves (ISO-TP incl. all 256 extended addresses, HSFZ, DoIP) run against fakes and every URI they emit must parse back to the endpoint that answered and connect with it; what reaches the socket (setsockopt / bind structs, connect arguments) is decoded and compared with the URI's numbers for every transport; prefix-less hex is rejected, digit strings are decimal. Parsing is history-independent: 22 literals through 27 integer entry points in every ordered pair (A, B, A again) within one process. Every ip transport is connected twice through one TargetURI object, which must read the same before and after. Range grammar: all expressions of <= 4 tokens for unravel and <= 3 outer groups for unravel_2d over "
         "8 numerals incl. overlaps, single-element, reversed and empty ranges, repeated outer keys and whitespace variants, through the raw functions and "
         "the Ranges / Ranges2D pydantic types: result = sorted union (per outer key; bare key = all). 4.9 M evaluations quick, 86 M thorough.",
         "note": "Trusted: pydantic, urllib, ipaddress, vf/ref/c20_model.py. Hosts are compared as hosts. Reversed ranges, empty parts and undocumented whitespace "
